@@ -45,7 +45,7 @@ def gen_cases(tier, seed):
         maxin = 70000 if big else rng.choice([5000, 5000, 20000])
         cases.append({"bseed": rng.randrange(1 << 48), "kind": "dict_" + fam, "fam": fam, "dn": dn, "maxin": maxin,
                       "arena": dn + 3 * (maxin + 16) + 64 + 4096 + 200,
-                      "levels": sl.HC_LEVELS if maxin <= 5000 else sl.HC_LEVELS_CHEAP})
+                      "levels": [1, 2, 2] if (fam == "h" and i % 10 in (3, 8)) else sl.HC_LEVELS if maxin <= 5000 else sl.HC_LEVELS_CHEAP})   # [1,2,2]: LZ4MID only, mirrored on Model.HcMidStream
     # dictionary cut out of a larger buffer; inputs repeat its LAST bytes; every cross-level attach pairing (HC)
     k = {"quick": 1, "search": 3, "thorough": 6}[tier]
     for rep in range(k):
